@@ -143,6 +143,20 @@ func checkC17(c *Ctx, r *Report) {
 		r.Check(bad == "", "C17.b", "R2 ORDER", name+"/reduce-is-traced-with-its-own-rule", sk.pos(d.loop.Pos()),
 			"TraceReduce sits between the goto lookup and the push and reports the reduced rule's index, the state being pushed and the triggering lookahead", bad)
 	}
+	// the names printed by the trace are safe where they land (a '%' or '"' in a token must not change the line)
+	if scq := configOf(st, "go/global/packed"); scq != nil && scq.Tree != nil {
+		sub := &Report{Prop: "C17", Extra: map[string]interface{}{}}
+		saved := holeSeenGlobal
+		holeSeenGlobal = map[string]bool{}
+		c16HoleContexts(c, sub, scq)
+		holeSeenGlobal = saved
+		for _, o := range sub.Obls {
+			if strings.Contains(o.Construct, "buildTranslate") {
+				n := r.add("C17.c←"+o.Clause, o.Rule, o.Construct, o.Pos, o.Verdict, o.Detail)
+				n.Nontriv = true
+			}
+		}
+	}
 	// builders: ReduceTrace and TranslateTrace
 	sc := configOf(st, "go/global/dense")
 	if sc == nil {
